@@ -26,6 +26,8 @@ pub struct C08Case {
     /// 0 into_read, 1 into_async_read, 2 IppPayload as Read, 3 IppPayload as AsyncRead
     pub consumer: u8,
     pub bufs: Vec<u32>,
+    /// call to_bytes() once, then change the header through header_mut(), then stream
+    pub poke_header: bool,
 }
 
 fn c08_case(big: bool) -> BoxedStrategy<C08Case> {
@@ -35,16 +37,16 @@ fn c08_case(big: bool) -> BoxedStrategy<C08Case> {
         prop_oneof![1 => Just(vec![]), 1 => any::<u8>().prop_map(|b| vec![b]), 4 => proptest::collection::vec(any::<u8>(), 2..300), 2 => gen::payload()].boxed()
     };
     let bufs = proptest::collection::vec(prop_oneof![3 => 1u32..8, 3 => 8u32..600, 1 => Just(65536u32), 1 => 600u32..65536], 1..12);
-    (gen::m_msg(2), payload, 0u8..3, (0u8..4, any::<u16>(), any::<u64>(), any::<u64>()), 0u8..4, bufs)
-        .prop_map(|(mut msg, payload, source, src_sched, consumer, bufs)| {
+    (gen::m_msg(2), payload, 0u8..3, (0u8..4, any::<u16>(), any::<u64>(), any::<u64>()), 0u8..4, bufs, prop_oneof![3 => Just(false), 1 => Just(true)])
+        .prop_map(|(mut msg, payload, source, src_sched, consumer, bufs, poke_header)| {
             msg.payload = if source == 0 { vec![] } else { payload };
-            C08Case { msg, source, src_sched, consumer, bufs }
+            C08Case { msg, source, src_sched, consumer, bufs, poke_header }
         })
         .boxed()
 }
 
 fn c08_json(c: &C08Case) -> Value {
-    json!({"msg": mmsg_json(&c.msg), "source": c.source, "src_sched": [c.src_sched.0 as u64, c.src_sched.1 as u64, c.src_sched.2, c.src_sched.3], "consumer": c.consumer, "bufs": c.bufs})
+    json!({"msg": mmsg_json(&c.msg), "source": c.source, "src_sched": [c.src_sched.0 as u64, c.src_sched.1 as u64, c.src_sched.2, c.src_sched.3], "consumer": c.consumer, "bufs": c.bufs, "poke_header": c.poke_header})
 }
 
 fn c08_from_json(v: &Value) -> Option<C08Case> {
@@ -55,6 +57,7 @@ fn c08_from_json(v: &Value) -> Option<C08Case> {
         src_sched: (s.first()?.as_u64()? as u8, s.get(1)?.as_u64()? as u16, s.get(2)?.as_u64()?, s.get(3)?.as_u64()?),
         consumer: v.get("consumer")?.as_u64()? as u8,
         bufs: v.get("bufs")?.as_array()?.iter().map(|x| x.as_u64().unwrap_or(1) as u32).collect(),
+        poke_header: v.get("poke_header").and_then(|b| b.as_bool()).unwrap_or(false),
     })
 }
 
@@ -89,7 +92,21 @@ pub fn judge_c08(c: &C08Case, p: &Probe) -> Judge {
         }
         _ => {}
     }
-    let head = msg.to_bytes().to_vec();
+    let mut head = msg.to_bytes().to_vec();
+    if c.poke_header {
+        // the message was already encoded once (to size or log it, say); the header is changed afterwards.
+        // The stream must carry the header as it is NOW: expected = the new 8 header octets (computed
+        // here, not by the library) followed by the attribute bytes of this same instance.
+        let h = msg.header_mut();
+        h.request_id = h.request_id.wrapping_add(0x0101_0101);
+        h.operation_or_status ^= 0x0003;
+        h.version = ipp::model::IppVersion(h.version.0 ^ 0x0100);
+        let (v, code, id) = (msg.header().version.0, msg.header().operation_or_status, msg.header().request_id);
+        head[0..2].copy_from_slice(&v.to_be_bytes());
+        head[2..4].copy_from_slice(&code.to_be_bytes());
+        head[4..8].copy_from_slice(&id.to_be_bytes());
+        p.label("header changed after an earlier to_bytes()");
+    }
     let expected: Vec<u8> = if c.consumer < 2 { [head.as_slice(), payload_bytes.as_slice()].concat() } else { payload_bytes.clone() };
 
     let bridge = (c.source == 1 && !blocking_consumer) || (c.source == 2 && blocking_consumer);
@@ -154,10 +171,11 @@ pub fn judge_c08(c: &C08Case, p: &Probe) -> Judge {
                     loop {
                         let n = bufs[i % bufs.len()] as usize;
                         i += 1;
+                        // no retry convention exists for AsyncRead: any error ends the stream for a real
+                        // consumer (an HTTP body stream, say)
                         match AsyncReadExt::read(&mut r, &mut buf[..n]).await {
                             Ok(0) => break,
                             Ok(k) => got.extend_from_slice(&buf[..k]),
-                            Err(e) if e.kind() == std::io::ErrorKind::Interrupted => continue,
                             Err(e) => return Err(format!("read error {e}")),
                         }
                         if got.len() > limit {
@@ -167,7 +185,6 @@ pub fn judge_c08(c: &C08Case, p: &Probe) -> Judge {
                     for _ in 0..3 {
                         match AsyncReadExt::read(&mut r, &mut buf[..7]).await {
                             Ok(0) => {}
-                            Err(e) if e.kind() == std::io::ErrorKind::Interrupted => {}
                             _ => after += 1,
                         }
                     }
@@ -236,6 +253,9 @@ pub struct Resp {
     pub after: Vec<u8>,
     pub extra_printer_attrs: Vec<(String, CValue)>,
     pub has_printer_group: bool,
+    /// harmless printer-state / printer-state-reasons look-alikes placed in the non-printer groups that
+    /// precede the printer-attributes group (0 none, 1 reasons 'none', 2 out-of-band unsupported, 3 state idle)
+    pub decoy: u8,
 }
 
 fn resp() -> BoxedStrategy<Resp> {
@@ -257,13 +277,13 @@ fn resp() -> BoxedStrategy<Resp> {
     let reasons = prop_oneof![2 => Just(None), 3 => kw.clone().prop_map(|k| Some(vec![k])), 5 => proptest::collection::vec(kw, 1..=8).prop_map(Some)];
     let extra = proptest::collection::vec((proptest::sample::select(vec!["printer-name", "printer-is-accepting-jobs", "queued-job-count", "printer-state-message", "media-ready"]).prop_map(|s| s.to_string()), gen::m_value(1, false)), 0..4);
     let tags = || proptest::collection::vec(prop_oneof![Just(2u8), Just(5u8), Just(1u8)], 0..3);
-    (status, state, reasons, tags(), proptest::collection::vec(prop_oneof![Just(2u8), Just(5u8), Just(4u8)], 0..3), extra, prop_oneof![9 => Just(true), 1 => Just(false)])
-        .prop_map(|(status, state, reasons, before, after, extra_printer_attrs, has_printer_group)| Resp { status, state, reasons, before, after, extra_printer_attrs, has_printer_group })
+    (status, state, reasons, tags(), proptest::collection::vec(prop_oneof![Just(2u8), Just(5u8), Just(4u8)], 0..3), extra, prop_oneof![9 => Just(true), 1 => Just(false)], prop_oneof![3 => Just(0u8), 1 => Just(1u8), 1 => Just(2u8), 1 => Just(3u8)])
+        .prop_map(|(status, state, reasons, before, after, extra_printer_attrs, has_printer_group, decoy)| Resp { status, state, reasons, before, after, extra_printer_attrs, has_printer_group, decoy })
         .boxed()
 }
 
 fn resp_json(r: &Resp) -> Value {
-    json!({"status": r.status, "state": r.state.as_ref().map(cvalue_json), "reasons": r.reasons, "before": r.before, "after": r.after, "has_printer_group": r.has_printer_group,
+    json!({"status": r.status, "state": r.state.as_ref().map(cvalue_json), "reasons": r.reasons, "before": r.before, "after": r.after, "has_printer_group": r.has_printer_group, "decoy": r.decoy,
         "extra": r.extra_printer_attrs.iter().map(|(n, v)| json!({"name": n, "v": cvalue_json(v)})).collect::<Vec<_>>()})
 }
 
@@ -282,6 +302,7 @@ fn resp_from_json(v: &Value) -> Option<Resp> {
         before: tags("before")?,
         after: tags("after")?,
         has_printer_group: v.get("has_printer_group")?.as_bool()?,
+        decoy: v.get("decoy").and_then(|d| d.as_u64()).unwrap_or(0) as u8,
         extra_printer_attrs: v.get("extra")?.as_array()?.iter().map(|x| Some((x.get("name")?.as_str()?.to_string(), cvalue_from_json(x.get("v")?)?))).collect::<Option<Vec<_>>>()?,
     })
 }
@@ -292,9 +313,28 @@ fn resp_model(r: &Resp) -> MMsg {
     op.insert(b"attributes-charset".to_vec(), CValue::Str(0x47, b"utf-8".to_vec()));
     op.insert(b"attributes-natural-language".to_vec(), CValue::Str(0x48, b"en".to_vec()));
     groups.push((1, op));
-    for t in &r.before {
+    if r.decoy != 0 && r.has_printer_group {
+        // e.g. an unsupported-attributes group echoing a requested attribute, or a job group
+        match r.decoy {
+            1 => groups[0].1.insert(b"printer-state-reasons".to_vec(), CValue::Str(0x44, b"none".to_vec())),
+            2 => None,
+            _ => groups[0].1.insert(b"printer-state".to_vec(), CValue::Enum(3)),
+        };
+    }
+    for (i, t) in r.before.iter().enumerate() {
         let mut g = BTreeMap::new();
         g.insert(b"job-id".to_vec(), CValue::Integer(*t as i32));
+        if r.has_printer_group && i == 0 {
+            match r.decoy {
+                1 => g.insert(b"printer-state-reasons".to_vec(), CValue::Set(vec![CValue::Str(0x44, b"none".to_vec()), CValue::Str(0x44, b"media-low".to_vec())])),
+                2 => {
+                    g.insert(b"printer-state".to_vec(), CValue::Other(0x10, vec![]));
+                    g.insert(b"printer-state-reasons".to_vec(), CValue::Other(0x10, vec![]))
+                }
+                3 => g.insert(b"printer-state".to_vec(), CValue::Enum(4)),
+                _ => None,
+            };
+        }
         groups.push((*t, g));
     }
     if r.has_printer_group {
@@ -356,6 +396,9 @@ pub fn judge_c17(r: &Resp, p: &Probe) -> Judge {
         if blocking_pos.map(|i| i > 0).unwrap_or(false) {
             p.label("blocking keyword not first in set");
         }
+        if r.decoy != 0 && r.has_printer_group {
+            p.label("same-named harmless attributes in an earlier non-printer group");
+        }
     } else if r.status > 0xff {
         p.label("non-successful status");
     } else {
@@ -395,7 +438,7 @@ pub fn judge_c17(r: &Resp, p: &Probe) -> Judge {
 }
 
 pub fn run_c17(ctx: &Ctx) {
-    ctx.set_rule("proptest-generated responses: status (weighted to the three success codes, also 0x0003-0x00ff and any u16) x printer-state {absent, enum 3/4/5, other enum, integer 5, keyword} x printer-state-reasons {absent, one keyword, set of 1-8 keywords from the ten blocking and an informational vocabulary, blocking keyword at any position} x unrelated attributes and groups before/after; each response is judged twice: built in memory, and encoded by the reference encoder and parsed by the library. Oracle = truth table from the statement (silent where it is silent). Non-trivial = success status and (blocking keyword not first in a set, or a single keyword, or stopped with harmless reasons); distinct by response hash.");
+    ctx.set_rule("proptest-generated responses: status (weighted to the three success codes, also 0x0003-0x00ff and any u16) x printer-state {absent, enum 3/4/5, other enum, integer 5, keyword} x printer-state-reasons {absent, one keyword, set of 1-8 keywords from the ten blocking and an informational vocabulary, blocking keyword at any position} x unrelated attributes and groups before/after (in 50 % of cases the operation group and the first preceding job/unsupported group carry harmless attributes of the same names: reasons 'none', out-of-band 'unsupported', state idle/processing - the printer-attributes group stays authoritative); each response is judged twice: built in memory, and encoded by the reference encoder and parsed by the library. Oracle = truth table from the statement (silent where it is silent). Non-trivial = success status and (blocking keyword not first in a set, or a single keyword, or stopped with harmless reasons); distinct by response hash.");
     ctx.assume("state/reasons are placed in the first printer-attributes group only; status 0x0003-0x00ff is not asserted");
     let (shards, per) = ctx.tier.pick((16, 15000), (16, 250000));
     run_prop(ctx, "readiness", shards, per, resp, judge_c17, resp_json);
